@@ -198,6 +198,12 @@ def memory_order(x, order):
     if order == "A":
         flags = onp.asarray(getval(x)).flags
         return "F" if flags.f_contiguous and not flags.c_contiguous else "C"
+    if order == "K":
+        # order="K" reads x in the order of its memory, whatever layout the (co)tangent has
+        flags = onp.asarray(getval(x)).flags
+        if not (flags.c_contiguous or flags.f_contiguous):
+            raise NotImplementedError("order='K' of an array that is neither C nor Fortran contiguous")
+        return "C" if flags.c_contiguous else "F"
     return order
 
 
